@@ -351,6 +351,13 @@ func join(a, b context, node parse.Node, nodeName string) context {
 	a.attr.dynamic = a.attr.dynamic || b.attr.dynamic
 	a.element.continued = a.element.continued || b.element.continued
 	a.attr.continued = a.attr.continued || b.attr.continued
+	if a.enclosing != b.enclosing {
+		if a.enclosing != "" && b.enclosing != "" {
+			a.enclosing = "*"
+		} else {
+			a.enclosing += b.enclosing
+		}
+	}
 	// e.g. `<a{{if .C}} {{end}}title="x">`: on one path the tag name is still unfinished.
 	a.element.partial = a.element.partial || b.element.partial
 	a.attr.dynamicStart = a.attr.dynamicStart || b.attr.dynamicStart
@@ -568,7 +575,7 @@ func (e *escaper) escapeTemplate(c context, n *parse.TemplateNode) context {
 func mangle(c context, templateName string) string {
 	// The mangled name for the default context is the input templateName.
 	if c.state == stateText {
-		if _, err := sanitizerForElementContent(c); err == nil && !c.element.continued {
+		if _, err := sanitizerForElementContent(c); err == nil && !c.element.continued && c.enclosing == "" {
 			return templateName
 		}
 		// Actions are not allowed in the content of this element: analyse a separate copy
@@ -601,6 +608,9 @@ func mangle(c context, templateName string) string {
 	}
 	if c.attr.continued {
 		s += "_attrNameContinued"
+	}
+	if c.enclosing != "" {
+		s += "_in(" + c.enclosing + ")"
 	}
 	if c.linkRel != "" {
 		s += "_rel(" + strings.TrimSpace(c.linkRel) + ")"
@@ -900,6 +910,7 @@ func contextAfterText(c context, s []byte) (context, int) {
 		element:    c.element,
 		scriptType: c.scriptType,
 		linkRel:    c.linkRel,
+		enclosing:  c.enclosing,
 	}
 	// A "/" inside a tag separates attributes like white space does: for a browser
 	// `<link /rel="stylesheet">` and `<link x/rel="stylesheet">` have a rel attribute,
